@@ -9,6 +9,6 @@ LEVEL = "proof"
 def run(ctx, out):
     dcheck.run_property(ctx, out, "C14", "mon_c14_all", n_quick=300, n_thorough=5000,
                         gen_kw=dict(ws_share=0.3, batches=0.05, malformed=0.02, timers=True),
-                        directed=directed.batch_orders() + directed.regressions() + directed.subms_timeouts() + directed.orphan_routes() + directed.huge_timeouts() + directed.timeout_spellings())
+                        directed=directed.batch_orders() + directed.regressions() + directed.subms_timeouts() + directed.orphan_routes() + directed.huge_timeouts() + directed.timeout_spellings() + directed.escaped_ids())
     out.assumptions += ["'never early' rests on the timerfd contract: the simulated kernel makes a timer readable only at or after its armed deadline",
                         "the double -> ns conversion uses IEEE doubles in both the C code and the executable model; it is opaque in proofs"]
